@@ -11,12 +11,14 @@ CHECK = dict(
           'flushes, daemon faults, thread stalls and seam-level pre-emption; once the daemon is frozen and '
           'the server caught up (bounded window) every observable (UTXOs, histories, tx map, headers, '
           'counts, chain size, tip, raw tables) is compared with RefIndex(final chain), i.e. with what a '
-          'server that only ever saw the final chain reports. non-trivial = >= 1 block was undone and an '
+          'server that only ever saw the final chain reports; in 12 % (quick) / 35 % (thorough) of the runs that is '
+          'done literally: a fresh simulated server indexes the final chain and its full snapshot (incl. raw '
+          'tables and tx numbers) must be identical. non-trivial = >= 1 block was undone and an '
           'audit completed; distinct = distinct interleaving signature'),
     assumptions=['SimDB/SimFS stand in for LevelDB and the file system (batches atomic, completed '
                  'operations durable: process death, not power loss)',
                  'the model bitcoind serves only valid chains; fork depth within the property\'s '
                  'quantifier (reorg limit counted from the highest height the daemon reported; chain '
                  'at least twice as high as the fork is deep)'],
-    required_probes=['backup_blocks', 'audits', 'fork.depth1', 'fork.depth3', 'admin_reorg.accepted', 'fork.exotic'],
+    required_probes=['c03.differentials', 'backup_blocks', 'audits', 'fork.depth1', 'fork.depth3', 'admin_reorg.accepted', 'fork.exotic'],
 )
